@@ -42,14 +42,18 @@ func (f *Figure) ElementType() string {
 }
 
 func (f *Figure) GenerateOutput(textOnly bool) string {
+	// The processed caption is nil when nothing of the caption is rendered (e.g. it is hidden)
 	figCaption := domutil.CloneAndProcessTree(f.Caption, f.PageURL)
 	if textOnly {
+		if figCaption == nil {
+			return ""
+		}
 		return domutil.InnerText(figCaption)
 	}
 
 	figure := dom.CreateElement("figure")
 	dom.AppendChild(figure, f.getProcessedNode())
-	if dom.InnerHTML(f.Caption) != "" {
+	if figCaption != nil && dom.InnerHTML(f.Caption) != "" {
 		dom.AppendChild(figure, figCaption)
 	}
 
